@@ -42,7 +42,7 @@ impl QueryBuilder for PostgresQueryBuilder {
         match simple_expr {
             SimpleExpr::AsEnum(type_name, expr) => {
                 write!(sql, "CAST(").unwrap();
-                self.prepare_simple_expr_common(expr, sql);
+                self.prepare_simple_expr(expr, sql);
                 let q = self.quote();
                 let type_name = type_name.to_string();
                 let (ty, sfx) = if type_name.ends_with("[]") {
